@@ -770,7 +770,12 @@ class Ctx(object):
         return Sym(self._sqrt[k])
 
     def is_integral(self, z):
-        return False
+        """pc |= z is integer-valued ?"""
+        zr = _real(z)
+        s = _mk_solver(2000)
+        s.add(*self.pc)
+        s.add(zr != z3.ToReal(z3.ToInt(zr)))
+        return zcheck(s, ms=2000) == z3.unsat
 
     def _check(self, extra):
         t0 = time.time()
@@ -1045,9 +1050,14 @@ class ConcreteCtx(object):
     def real(self, name, lo=None, hi=None, lo_strict=False, hi_strict=False):
         v = self._get(name)
         if v is None:
-            v = 1.0 if lo is None else (float(lo) + 1.0)
+            # value absent from the counter-model: deterministic, name-dependent completion
+            import zlib
+            u = (zlib.crc32(name.encode()) % 9973) / 9973.0
+            base = 0.0 if lo is None else float(lo)
+            v = base + 0.25 + u
             if hi is not None and v >= hi:
-                v = (float(lo if lo is not None else hi - 2) + float(hi)) / 2.0
+                lo_ = float(lo) if lo is not None else float(hi) - 2.0
+                v = lo_ + (float(hi) - lo_) * (0.1 + 0.8 * u)
         return float(v)
 
     def pos(self, name):
